@@ -32,6 +32,7 @@ func c04Opts(i int, c *ml.Config) {
 	c.GossipInterval = 200 * time.Millisecond
 	c.PushPullInterval = 4 * time.Second
 	c.TCPTimeout = 2 * time.Second
+	c.DelegateProtocolMin, c.DelegateProtocolMax, c.DelegateProtocolVersion = 2, 5, 4 // all distinct (a serf-like setup)
 }
 
 func runC04(t *testing.T, s c04Scn) (x nExec) {
@@ -50,6 +51,7 @@ func runC04(t *testing.T, s c04Scn) (x nExec) {
 		cfg.ProbePhase = phases[s.Phase%len(phases)]
 		c := newCluster(t, b, cfg, ch)
 		leaver := -1
+		updates := map[int]int{}
 		c.StepCheck = func(c *cluster) string {
 			for _, n := range c.nodes {
 				if n.crashed {
@@ -58,6 +60,10 @@ func runC04(t *testing.T, s c04Scn) (x nExec) {
 				snap := n.M.VSnapshot()
 				if snap.Health != 0 {
 					return fmt.Sprintf("%s health score %d", n.Name, snap.Health)
+				}
+				// nobody accuses anybody in a healthy cluster, so nobody has anything to refute
+				if int(snap.Incarnation) > 1+updates[n.idx] {
+					return fmt.Sprintf("%s raised its incarnation to %d after %d UpdateNode calls: it refuted something", n.Name, snap.Incarnation, updates[n.idx])
 				}
 				for i := range snap.Recs {
 					r := &snap.Recs[i]
@@ -93,7 +99,14 @@ func runC04(t *testing.T, s c04Scn) (x nExec) {
 		switch s.Op {
 		case "update":
 			c.at(at, "UpdateNode", func() {
+				updates[1]++
 				c.nodes[1].D.SetMeta([]byte("meta-1-updated"))
+				go func() { _ = c.nodes[1].M.UpdateNode(2 * time.Second) }()
+			})
+		case "update-empty":
+			c.at(at, "UpdateNode(empty meta)", func() {
+				updates[1]++
+				c.nodes[1].D.SetMeta(nil)
 				go func() { _ = c.nodes[1].M.UpdateNode(2 * time.Second) }()
 			})
 		case "leave":
@@ -194,7 +207,7 @@ func TestC04(t *testing.T) {
 			orders = [][]int{{0, 1, 2, 3}, {3, 1, 0, 2}}
 		}
 		for oi, o := range orders {
-			for _, op := range []string{"none", "update", "leave", "leave+shutdown", "bcast", "reliable", "join-again"} {
+			for _, op := range []string{"none", "update", "update-empty", "leave", "leave+shutdown", "bcast", "reliable", "join-again"} {
 				for _, at := range []int{700, 1900, 3300} {
 					if op == "none" && at != 700 {
 						continue
@@ -215,7 +228,7 @@ func TestC04(t *testing.T) {
 	for si, s := range scns {
 		s := s
 		b := bound
-		if !thorough() && !(s.Op == "none" || s.Op == "leave" || s.Op == "update" || s.Op == "leave+shutdown") {
+		if !thorough() && !(s.Op == "none" || s.Op == "leave" || s.Op == "update" || s.Op == "update-empty" || s.Op == "leave+shutdown") {
 			b = 0 // quick: deviations only on the core scenarios
 		}
 		if b == 0 && !mine(si) {
